@@ -190,6 +190,12 @@ def make_scenario(b, rng, ref=False, force=None):
         elif pm == 3:
             src_arg = "./%s.asm" % name
             dims.append("dot-path")
+        if sc["cwd"] != "/w/t" and rng.chance(0.6):
+            # files of the same names as the program's include files lie in the working directory: they are not the ones meant
+            for k in b["disk"]:
+                if k.startswith("/w/t/") and "/" not in k[5:] and k != "/w/t/%s.asm" % name:
+                    sc.setdefault("disk", {})[sc["cwd"] + "/" + k[5:]] = b"\terror \"decoy file in the working directory\"\n\tdb 255\n"
+            dims.append("decoy-includes-in-cwd")
         if rng.chance(0.3):
             out_p = "/w/out/%s.p" % name
             dims.append("outpath")
